@@ -98,7 +98,7 @@ The directory store derives file names from identifiers with `str.replace`, subs
 `endswith`.  `hyg` is the (decidable, executable) statement that on the identifier set `ids`
 these string manipulations produce the names the specification intends, and that distinct
 records have distinct side-file names.  `safe` lists, operation by operation, the situations in
-which the code as it is departs from the dictionary model for reasons other than naming
+which the code (after the repairs 5d49b05d8, fce82c149, 0dec94369) still departs from the dictionary model for reasons other than naming
 (each one is exhibited by a `_counter` theorem in `Props/C13.lean`). -/
 namespace CogentModel.DataStoreDict
 open CogentModel.KV
@@ -123,44 +123,40 @@ def hygId (sfx i : Str) : Bool :=
   !(cN sfx i).contains '/' &&
   !(ncN i).contains '/'
 
-def hygPair (cfg : Cfg) (sfx i j : Str) : Bool :=
-  (!dropMatch cfg (ncN i) (ncN j) || decide (ncN j = ncN i)) &&
+def hygPair (sfx i j : Str) : Bool :=
   (!decide (mdOf sfx (cN sfx i) = mdOf sfx (cN sfx j)) || decide (cN sfx i = cN sfx j)) &&
   (!decide (mdOf sfx (ncN i) = mdOf sfx (ncN j)) || decide (ncN i = ncN j)) &&
   (!decide (mdOf sfx (cN sfx i) = mdOf sfx (ncN j)) || decide (ncN i = ncN j))
 
 /-- name hygiene of an identifier set -/
-def hyg (cfg : Cfg) (sfx : Str) (ids : List Str) : Bool :=
-  ids.all (hygId sfx) && ids.all (fun i => ids.all (fun j => hygPair cfg sfx i j))
+def hyg (sfx : Str) (ids : List Str) : Bool :=
+  ids.all (hygId sfx) && ids.all (fun i => ids.all (fun j => hygPair sfx i j))
 
 variable {D : Type}
 
 /-- side conditions of one operation, evaluated on the dictionary state before it -/
-def safe (cfg : Cfg) (sfx : Str) (ids : List Str) (d : Dict D) : Op D → Bool
+def safe (sfx : Str) (ids : List Str) (d : Dict D) : Op D → Bool
   | .write i _ =>
     ids.contains i &&
     -- OVERWRITE mode does not rewrite an existing completed record (the code silently keeps the old one)
     (d.mode != .w || !has d.completed (cN sfx i))
   | .writeNc i _ =>
     ids.contains i &&
-    -- no second not-completed record for the identifier (the code lists it twice; append overwrites)
-    !has d.notCompleted (ncN i) &&
+    -- APPEND mode: no second not-completed record for the identifier (the code overwrites it)
+    (d.mode != .a || !has d.notCompleted (ncN i)) &&
     -- OVERWRITE mode: no completed record of the identifier (they share one md5 side file)
     (d.mode != .w || !has d.completed (cN sfx i)) &&
     -- the not-completed file name is not a completed member's name (possible for suffix "json")
     !has d.completed (ncN i)
   | .writeLog _ _ => true
-  | .drop i =>
-    (i.isEmpty || ids.contains i) &&
-    -- the code as it is lets a read-only store drop records
-    (cfg.roDropChecked || d.mode != .r)
+  | .drop i => i.isEmpty || ids.contains i
   | .reopen _ => true
   | .observe => true
   | .unlock => true
 
 /-- every operation of the history is `safe` in the dictionary state it is applied to -/
-def safeHist (cfg : Cfg) (sfx : Str) (ids : List Str) : Dict D → List (Op D) → Bool
+def safeHist (sfx : Str) (ids : List Str) : Dict D → List (Op D) → Bool
   | _, [] => true
-  | d, op :: ops => safe cfg sfx ids d op && safeHist cfg sfx ids (specStep .directory sfx d op) ops
+  | d, op :: ops => safe sfx ids d op && safeHist sfx ids (specStep .directory sfx d op) ops
 
 end CogentModel.DataStoreDict
